@@ -28,9 +28,9 @@ MANIFEST = dict(
     ref="4/C09")
 
 DIALECTS = ["ansi", "bigquery", "clickhouse", "duckdb", "generic", "glaredb", "mssql", "mysql", "postgres", "redshift", "sqlite", "snowflake"]
-POOL = ["select", "from", "order", "group", "table", "index", "user", "limit", "Mixed", "UPPER", "my col", "a\"b", "it's", "é", "名前", "x-y", "1st", "$d",
+POOL = ["where", "having", "order", "union", "table", "index", "user", "limit", "Mixed", "UPPER", "my col", "a\"b", "it's", "é", "名前", "x-y", "1st", "$d",
         "table_0", "table_1", "table_2", "table_3", "_expr_0", "_expr_1", "_expr_2", "_expr_3", "q\"\"q", "b\\\"s", "semi;colon", "--c"]
-PLAIN = dict(T="tbl1", U="tbl2", C="c1", D="c2", A="al", L="lt")
+PLAIN = dict(T="tbl1", U="tbl2", C="c1", D="c2", A="al", L="mylet")
 NROWS = 3
 
 
@@ -120,9 +120,20 @@ def cte_names(ans):
 
 
 def ident_class(dialect, name, quote):
-    """known-finding predicate for identifier quoting"""
+    """known-finding predicates for identifier quoting (call site translate_ident_part + predicate on the name)"""
     if quote + quote in name or "\\" + quote in name:
         return "ident-already-escaped-heuristic"
+    if name.startswith("$") and re.fullmatch(r"[a-z0-9_$]+", name) and dialect != "snowflake":
+        return "dollar-leading-identifier-emitted-bare"
+    if dialect == "ansi" and name.startswith("_") and re.fullmatch(r"[a-z0-9_$]+", name):
+        return "underscore-leading-identifier-bare-on-ansi"
+    return None
+
+
+def sql_class(dialect, sql):
+    """the same predicates on the emitted text (generated names `_expr_N` are bare words starting with `_`)"""
+    if dialect == "ansi" and re.search(r"(?<![\w\"$])_[a-z0-9_$]*", re.sub(r"'(?:[^']|'')*'|\"(?:[^\"]|\"\")*\"", "", sql)):
+        return "underscore-leading-identifier-bare-on-ansi"
     return None
 
 
@@ -178,6 +189,17 @@ def suite_hooks(ctx, br, S_ident, S_kw, rng, thorough, stats):
                    "strings, the name pool and random Unicode, all 12 dialects", nbad == 0, f"{len(names)} names x {len(DIALECTS)} dialects, {nbad} disagreements")
 
 
+_EMIT = {}
+
+
+def emit_text(name, dialect="sqlite"):
+    k = (dialect, name)
+    if k not in _EMIT:
+        x = drv_batch([f"ident\t{dialect}\t{enc(name)}"])[0]
+        _EMIT[k] = dec(x.split(" ", 2 if x.startswith("quoted") else 1)[-1])
+    return _EMIT[k]
+
+
 def rq_tables(rq):
     out = []
     for t in rq.get("tables", []):
@@ -230,12 +252,11 @@ def suite_oracle(ctx, br, progs, con, stats, dialects, label):
             tabs, m = pred[k]
             if m.startswith("ok "):
                 assigned = [dec(x) for x in m.split(" ", 2)[2].split(";")] if len(m.split(" ", 2)) > 2 else []
-                ctes = cte_names(t)
-                wvals = {w["value"] for w in words(t)}
                 for (tid_, nm, ext), asg in zip(tabs, assigned):
                     if ext and asg != nm:
                         renamed = (nm, asg)
-                    if (not ext and asg not in ctes) or (ext and asg not in wvals):
+                    etxt = emit_text(asg)
+                    if (not ext and not re.search(r"(WITH|WITH RECURSIVE|,) " + re.escape(etxt) + r" AS \(", sql)) or (ext and etxt not in sql):
                         nbad_assign += 1
                         ctx.disagreement("assign_names", f"the CTE / table name Model.Names.assignSeq predicts ({asg!r}) does not occur in the SQL",
                                          {"prql": src, "sql": sql, "rq_tables": tabs, "model": assigned})
@@ -244,13 +265,16 @@ def suite_oracle(ctx, br, progs, con, stats, dialects, label):
         ok = got is not None and (got == want if ordered else sorted(map(repr, got)) == sorted(map(repr, want)))
         if not ok:
             fid = None
-            bad = [n for n in used if ident_class("sqlite", n, '"')]
+            bad = [ident_class("sqlite", n, '"') for n in used if ident_class("sqlite", n, '"')]
             if bad:
-                fid = "ident-already-escaped-heuristic"
+                fid = bad[0]
             elif renamed:
                 fid = "extern-table-renamed-by-assign-names"
-            elif tid == "split-duplicate" and re.fullmatch(r"_expr_\d+", names["C"]):
+            elif tid == "split-duplicate" and (re.fullmatch(r"_expr_\d+", names["C"]) or re.fullmatch(r"_expr_\d+", names["D"])):
                 fid = "split-regenerated-name-not-rechecked"
+            elif any(re.fullmatch(r"_expr_\d+", names[p_]) and re.search(r" AS " + names[p_] + r"\b", sql + " ") is None and names[p_] + "." in sql
+                     for p_ in "TU" if p_ in tid_positions(tid)):
+                fid = "dedup-conflates-qualifier-and-alias"
             stats["fail"][("sqlite", tid, fid)] += 1
             ctx.oracle_failure(fid, f"{tid}: names bind to the wrong objects or the statement fails: {err or str(got)[:160]}",
                                {"prql": src, "dialect": "sqlite", "sql": sql, "expected": want, "observed": got if got is not None else err})
@@ -279,8 +303,8 @@ def suite_oracle(ctx, br, progs, con, stats, dialects, label):
         vals = {w["value"] for w in words(t)}
         missing = [n for n in used if n not in vals]
         if t.get("statements") != 1 or missing:
-            bad = [n for n in used if ident_class(d, n, quote_of.get(d, '"'))]
-            fid = "ident-already-escaped-heuristic" if bad else None
+            bad = [ident_class(d, n, quote_of.get(d, '"')) for n in used if ident_class(d, n, quote_of.get(d, '"'))]
+            fid = bad[0] if bad else sql_class(d, a["sql"])
             stats["fail"][(d, tid, fid)] += 1
             ctx.oracle_failure(fid, f"sql.{d}: the SQL does not parse or does not carry the names {missing!r} as identifier tokens",
                                {"prql": src, "dialect": d, "sql": a["sql"], "missing": missing, "err": t.get("tokenize_error") or t.get("parse_error")})
@@ -298,7 +322,7 @@ def kind_of(n):
         return "generated-pattern"
     if n in PLAIN.values():
         return "plain"
-    if n.lower() in ("select", "from", "order", "group", "table", "index", "user", "limit"):
+    if n.lower() in ("where", "having", "order", "union", "table", "index", "user", "limit"):
         return "keyword"
     if any(ord(c) > 127 for c in n):
         return "non-ascii"
@@ -377,8 +401,8 @@ def run(ctx):
         return
     G = br.gen
     stats = dict(hook=Counter(), templates=Counter(), name_kinds=Counter(), fail=Counter(), split=Counter(), sqlite_exec=0, quote_of={})
-    qd = G.get("Dialects", {}).get("summary", {}).get("flags", {}).get("ident_quote", {}) if "Dialects" in G else {}
-    stats["quote_of"] = {d: qd.get(d, '"') for d in DIALECTS}
+    # the quote character per dialect, from the regenerated dialect table (through the model)
+    stats["quote_of"] = {d: chr(int(a.split(" ")[1])) for d, a in zip(DIALECTS, drv_batch([f"ident\t{d}\t{enc('a b')}" for d in DIALECTS]))}
     suite_hooks(ctx, br, G.get("Ident", {}).get("summary", {}), G.get("Keywords", {}).get("summary", {}), ctx.rng, thorough, stats)
     con = make_db()
     progs = build_programs(ctx.rng, 3000 if thorough else 250)
